@@ -5,6 +5,7 @@ import (
 	"math/rand"
 	"strings"
 	"sync"
+	"sync/atomic"
 	"time"
 
 	"github.com/siyul-park/uniflow/pkg/node"
@@ -378,8 +379,23 @@ func pumpCase(r *rand.Rand, hist map[string]int) (string, any, string, bool) {
 	var got []string
 	var gotMu sync.Mutex
 	closedSeen := false
+	// how many packets the writer has put on its way to the requester (inbound hook: called under the writer's
+	// lock just before the hand-off), so that the requester's patience does not depend on machine load
+	var sent atomic.Int64
+	w.AddInboundHook(packet.HookFunc(func(*packet.Packet) { sent.Add(1) }))
+	taken := func() int64 {
+		gotMu.Lock()
+		defer gotMu.Unlock()
+		return int64(len(got))
+	}
+	waitTaken := func() {
+		for dl := time.Now().Add(3 * time.Second); taken() < sent.Load() && time.Now().Before(dl); {
+			time.Sleep(200 * time.Microsecond)
+		}
+	}
 	early := r.Intn(2) == 0 // the requester waits on the channel from the start
 	drained := make(chan struct{})
+	stopLate := make(chan struct{})
 	drain := func(limit time.Duration) {
 		for {
 			select {
@@ -394,6 +410,8 @@ func pumpCase(r *rand.Rand, hist map[string]int) (string, any, string, bool) {
 				got = append(got, pktOf(p))
 				gotMu.Unlock()
 			case <-time.After(limit):
+				return
+			case <-stopLate:
 				return
 			}
 		}
@@ -537,7 +555,8 @@ func pumpCase(r *rand.Rand, hist map[string]int) (string, any, string, bool) {
 				<-drained
 			}
 		} else {
-			time.Sleep(3 * time.Millisecond)
+			waitTaken()
+			time.Sleep(2 * time.Millisecond)
 			close(stopEarly)
 			<-drained
 		}
@@ -545,7 +564,8 @@ func pumpCase(r *rand.Rand, hist map[string]int) (string, any, string, bool) {
 		if wclosed {
 			drain(2 * time.Second)
 		} else {
-			drain(3 * time.Millisecond)
+			go func() { waitTaken(); time.Sleep(2 * time.Millisecond); close(stopLate) }()
+			drain(10 * time.Second)
 		}
 	}
 	gotMu.Lock()
